@@ -97,12 +97,8 @@ def fresh(rng, used, lo=2, hi=9):
 DEFECTS = ['dup-label', 'dup-bit', 'bit-range', 'alias-unknown', 'alias-shadows-group', 'alias-forward']
 
 
-def gen_file(rng, style=None, kind=None):
-    """-> dict(text, style, kind, groups {GROUP: {LABEL: bit}}, names [GROUP or ALIAS], rows, aliases)"""
-    if style is None:
-        style = 'upper' if rng.random() < 0.55 else 'mixed'
-    if kind is None:
-        kind = 'wf' if rng.random() < 0.82 else rng.choice(DEFECTS)
+def gen_structure(rng):
+    """-> dict(gnames, groups {GROUP: {LABEL: bit}}, aliases [(TARGET, ALIAS)]) -- a well-formed set of definitions"""
     used = set()
     ngroups = rng.randint(1, 6)
     gnames = []
@@ -117,34 +113,169 @@ def gen_file(rng, style=None, kind=None):
     pool = [ident(rng) for _ in range(rng.randint(3, 12))]
     groups = {}
     for g in gnames:
+        groups[g] = gen_group(rng, pool)
+    aliases = []
+    names = list(gnames)
+    for _ in range(rng.choice([0, 0, 1, 1, 2, 3, 4])):
+        tgt = rng.choice(names)
+        al = fresh(rng, used)
+        aliases.append((tgt, al))
+        names.append(al)
+    return {'gnames': gnames, 'groups': groups, 'aliases': aliases, 'pool': pool}
+
+
+def gen_group(rng, pool):
+    t = rng.random()
+    if t < 0.15:
+        n = 1
+    elif t < 0.6:
+        n = rng.randint(2, 6)
+    elif t < 0.93:
+        n = rng.randint(7, 20)
+    else:
+        n = rng.randint(40, 64)
+    bits = set(rng.sample(range(64), n))
+    if rng.random() < 0.6:
+        bits.add(63)
+    if rng.random() < 0.3:
+        bits.add(0)
+    if rng.random() < 0.2:
+        bits.update((31, 32))
+    if rng.random() < 0.15:
+        bits.add(62)
+    labs = set()
+    d = {}
+    for b in sorted(bits):
+        while True:
+            lab = rng.choice(pool) if rng.random() < 0.4 else ident(rng)
+            if lab not in labs:
+                labs.add(lab)
+                break
+        d[lab] = b
+    return d
+
+
+def vary_structure(rng, st):
+    """A different, again well-formed, set of definitions that re-uses the names of st: what a newer maskbits
+    file looks like (labels renamed, bits moved, bit 63 added, groups dropped / added / turned into aliases)."""
+    gnames = list(st['gnames'])
+    groups = {g: dict(d) for g, d in st['groups'].items()}
+    pool = st['pool']
+    old_aliases = list(st['aliases'])
+    dropped = []
+    for g in list(gnames):
+        d = groups[g]
         t = rng.random()
-        if t < 0.15:
-            n = 1
-        elif t < 0.6:
-            n = rng.randint(2, 6)
-        elif t < 0.93:
-            n = rng.randint(7, 20)
-        else:
-            n = rng.randint(40, 64)
-        bits = set(rng.sample(range(64), n))
-        if rng.random() < 0.6:
-            bits.add(63)
-        if rng.random() < 0.3:
-            bits.add(0)
-        if rng.random() < 0.2:
-            bits.update((31, 32))
-        if rng.random() < 0.15:
-            bits.add(62)
-        labs = set()
-        d = {}
-        for b in sorted(bits):
-            while True:
-                lab = rng.choice(pool) if rng.random() < 0.4 else ident(rng)
-                if lab not in labs:
-                    labs.add(lab)
-                    break
-            d[lab] = b
-        groups[g] = d
+        if t < 0.15 and len(gnames) > 1:
+            gnames.remove(g)
+            del groups[g]
+            dropped.append(g)
+            continue
+        if t < 0.3:
+            continue                                  # unchanged group
+        labs = list(d)
+        for lab in labs:
+            u = rng.random()
+            if u < 0.25:                              # renamed, same bit
+                b = d.pop(lab)
+                while True:
+                    new = rng.choice(pool) if rng.random() < 0.3 else ident(rng)
+                    if new not in d:
+                        break
+                d[new] = b
+            elif u < 0.4:                             # moved to a free bit
+                free = [b for b in range(64) if b not in d.values()]
+                if free:
+                    d[lab] = rng.choice(free)
+            elif u < 0.5 and len(d) > 1:              # removed
+                del d[lab]
+        if len(d) >= 2 and rng.random() < 0.4:        # two labels exchange their bits
+            a, b = rng.sample(list(d), 2)
+            d[a], d[b] = d[b], d[a]
+        if 63 not in d.values() and rng.random() < 0.6:
+            new = ident(rng)
+            if new not in d:
+                d[new] = 63
+        for _ in range(rng.choice([0, 0, 1, 2, 5])):
+            free = [b for b in range(64) if b not in d.values()]
+            new = ident(rng)
+            if free and new not in d:
+                d[new] = rng.choice(free)
+        # the order of the rows changes too
+        it = list(d.items())
+        rng.shuffle(it)
+        groups[g] = dict(it)
+    used = set(gnames) | set(a for _, a in old_aliases) | set(dropped)
+    for _ in range(rng.choice([0, 0, 1])):
+        g = fresh(rng, used)
+        gnames.append(g)
+        groups[g] = gen_group(rng, pool)
+    rng.shuffle(gnames)
+    # aliases: old alias names are kept, retargeted or dropped; a dropped group may come back as an alias,
+    # an old alias may come back as a group of its own
+    names = list(gnames)
+    aliases = []
+    for tgt, al in old_aliases:
+        t = rng.random()
+        if t < 0.2:
+            dropped.append(al)
+            continue
+        if t < 0.3 and al not in groups:
+            gnames.append(al)
+            groups[al] = gen_group(rng, pool)
+            names.append(al)
+            continue
+        if tgt not in names or t < 0.55:
+            tgt = rng.choice(names)
+        aliases.append((tgt, al))
+        names.append(al)
+    for g in list(dropped):
+        if g not in names and rng.random() < 0.4:
+            aliases.append((rng.choice(names), g))
+            names.append(g)
+            dropped.remove(g)
+    if rng.random() < 0.3:
+        al = fresh(rng, used | set(names))
+        aliases.append((rng.choice(names), al))
+        names.append(al)
+    ghosts = [g for g in dropped if g not in names]
+    ghost_labels = {}
+    old_alias_of = {}
+    for tgt, al in old_aliases:
+        old_alias_of[al] = old_alias_of.get(tgt, tgt)
+    for nm in names:
+        oldg = st['groups'].get(old_alias_of.get(nm, nm))
+        if oldg:
+            ghost_labels[nm] = list(oldg)
+    return {'gnames': gnames, 'groups': groups, 'aliases': aliases, 'pool': pool,
+            'ghost_groups': ghosts, 'ghost_labels': ghost_labels}
+
+
+def check_structure(st):
+    """the generator's own well-formedness check (so that a generator slip cannot silently switch S off)"""
+    names = set()
+    for g in st['gnames']:
+        assert g not in names, ('group twice', g)
+        names.add(g)
+        d = st['groups'][g]
+        assert d and len(set(d.values())) == len(d) and all(0 <= b < 64 for b in d.values()), ('bits', g, d)
+    for tgt, al in st['aliases']:
+        assert tgt in names and al not in names, ('alias', tgt, al)
+        names.add(al)
+
+
+def gen_file(rng, style=None, kind=None, st=None):
+    """-> dict(text, style, kind, groups {GROUP: {LABEL: bit}}, names [GROUP or ALIAS], rows, aliases)"""
+    if style is None:
+        style = 'upper' if rng.random() < 0.55 else 'mixed'
+    if kind is None:
+        kind = 'wf' if rng.random() < 0.82 else rng.choice(DEFECTS)
+    if st is None:
+        st = gen_structure(rng)
+    check_structure(st)
+    gnames = list(st['gnames'])
+    groups = {g: dict(d) for g, d in st['groups'].items()}
+    used = set(gnames) | set(a for _, a in st['aliases'])
     rows = [(g, b, lab) for g in gnames for lab, b in groups[g].items()]
     order = rng.random()
     if order < 0.3:
@@ -157,14 +288,8 @@ def gen_file(rng, style=None, kind=None):
             rows += [(g, b, lab) for lab, b in it]
     else:
         rng.shuffle(rows)
-    # aliases
-    aliases = []
-    names = list(gnames)
-    for _ in range(rng.choice([0, 0, 1, 1, 2, 3, 4])):
-        tgt = rng.choice(names)
-        al = fresh(rng, used)
-        aliases.append((tgt, al))
-        names.append(al)
+    aliases = list(st['aliases'])
+    names = list(gnames) + [a for _, a in aliases]
     alias_of = {}
     for tgt, al in aliases:
         alias_of[al] = alias_of.get(tgt, tgt)
@@ -245,8 +370,9 @@ def gen_file(rng, style=None, kind=None):
             final.append('# a comment line')
         final.append(l)
     text = '\n'.join(lines + final) + '\n'
-    return {'text': text, 'style': style, 'kind': kind, 'note': note, 'groups': groups, 'gnames': gnames,
-            'names': names, 'alias_of': alias_of, 'rows': [list(r) for r in frows], 'aliases': [list(a) for a in faliases]}
+    return {'text': text, 'style': style, 'kind': kind, 'note': note, 'groups': groups, 'gnames': gnames, 'structure': st,
+            'names': names, 'alias_of': alias_of, 'rows': [list(r) for r in frows], 'aliases': [list(a) for a in faliases],
+            'ghost_groups': list(st.get('ghost_groups', [])), 'ghost_labels': dict(st.get('ghost_labels', {}))}
 
 
 def gen_calls(rng, fi, n):
@@ -254,16 +380,22 @@ def gen_calls(rng, fi, n):
     names = fi['names']
     alias_of = fi['alias_of']
     allgroups = set(names)
+    ghosts = [g for g in fi.get('ghost_groups', []) if g not in allgroups]
+    ghost_labels = fi.get('ghost_labels', {})
+    cur = [None]
 
     def pick_group():
         """-> (spelling, GROUP it stands for or None, tag)"""
         t = rng.random()
-        if t < 0.08:
+        if ghosts and t < 0.1:                      # a name the previously loaded file defined, this one does not
+            return respell(rng, rng.choice(ghosts)), None, 'unknown-group'
+        if t < (0.14 if ghosts else 0.08):
             while True:
                 u = ident(rng)
                 if u not in allgroups:
                     return respell(rng, u), None, 'unknown-group'
         nm = rng.choice(names)
+        cur[0] = nm
         real = alias_of.get(nm, nm)
         return respell(rng, nm), groups.get(real), ('alias' if nm in alias_of else 'group')
 
@@ -290,8 +422,9 @@ def gen_calls(rng, fi, n):
         if allow_bad:
             t = rng.random()
             if t < 0.1:
+                old_labs = [l for l in ghost_labels.get(cur[0], []) if l not in d]
                 while True:
-                    u = ident(rng)
+                    u = rng.choice(old_labs) if old_labs and rng.random() < 0.6 else ident(rng)
                     if u not in d:
                         break
                 sel.insert(rng.randint(0, len(sel)), respell(rng, u))
@@ -457,6 +590,17 @@ def decode_strings(text):
     return re.sub(r'\[\s*\d+(?:\s*;\s*\d+)*\s*\]', rep, text)
 
 
+def outcome_key(r):
+    """comparable form of an implementation answer (error message text ignored)"""
+    if r is None:
+        return None
+    if 'err' in r:
+        return ('err', r['err'])
+    if 'ok' in r:
+        return ('ok',)
+    return tuple(sorted((k, str(v)) for k, v in r.items() if k != 'type'))
+
+
 def outcome(r):
     if r is None:
         return 'none'
@@ -467,16 +611,17 @@ def outcome(r):
 
 # ---------------------------------------------------------------- the run
 
-def build_and_run(ctx, files):
-    """files: list of generated file dicts (with 'calls').  Returns impl output per file."""
-    d = os.path.join(ctx.work, 'par')
+def build_and_run(ctx, files, chains, tag='par'):
+    """files: generated file dicts (with 'calls'); chains: lists of indices -- the files of one chain are loaded one
+    after the other in ONE implementation process (a process handles several chains).  Returns impl output per file."""
+    d = os.path.join(ctx.work, tag)
     os.makedirs(d, exist_ok=True)
     for k, fi in enumerate(files):
         fi['path'] = os.path.join(d, 'maskbits_%04d.par' % k)
         with open(fi['path'], 'w') as f:
             f.write(fi['text'])
-    nb = min(C.NPROC, max(1, len(files)))
-    batches = [list(range(len(files)))[i::nb] for i in range(nb)]
+    nb = min(C.NPROC, max(1, len(chains)))
+    batches = [[i for ch in chains[b::nb] for i in ch] for b in range(nb)]
     payloads = [{'files': [{'path': files[i]['path'], 'calls': [c for _, c in files[i]['calls']]} for i in b]} for b in batches]
     outs = C.run_impl_parallel('c07_impl.py', payloads)
     res = [None] * len(files)
@@ -501,17 +646,34 @@ def correspond(ctx, proof_ok=True):
     nfiles = ctx.n(128, 2500)
     ncalls = ctx.n(32, 60)
     files = []
-    # a few fixed shapes first: every style x kind at least once
+    chains = []
+    # a few fixed shapes first: every style x kind at least once (each alone in its chain)
     for style in ('upper', 'mixed'):
         for kind in ['wf'] + DEFECTS:
+            chains.append([len(files)])
             files.append(gen_file(rng, style, kind))
+    # then chains of 1-3 files sharing names: a file, then a newer edition of it (labels renamed, bits moved, bit 63
+    # added, groups / aliases dropped, added or exchanged), loaded one after the other in the same process
     while len(files) < nfiles:
-        files.append(gen_file(rng))
+        n = min(rng.choice([1, 2, 2, 3, 3, 3]), nfiles - len(files))
+        ch = []
+        st = None
+        for j in range(n):
+            st = gen_structure(rng) if st is None else vary_structure(rng, st)
+            fi = gen_file(rng, st=st)
+            fi['chain_pos'] = j
+            ch.append(len(files))
+            files.append(fi)
+        chains.append(ch)
+    pred = {}
+    for ch in chains:
+        for j, i in enumerate(ch):
+            pred[i] = ch[:j]
     for fi in files:
         fi['calls'] = gen_calls(rng, fi, ncalls)
     import time
     t_impl = time.time()
-    outs, pydl_file = build_and_run(ctx, files)
+    outs, pydl_file = build_and_run(ctx, files, chains)
     t_impl = time.time() - t_impl
     ctx.coverage['pydl_file'] = pydl_file
 
@@ -552,7 +714,7 @@ def correspond(ctx, proof_ok=True):
     # cannot hide another one
     classes = {}
     for k, v in bad_files:
-        classes.setdefault((v & 3, files[k]['style'], files[k]['kind'] == 'wf'), []).append((k, v))
+        classes.setdefault((v & 3, files[k]['style'], files[k]['kind'] == 'wf', bool(pred[k])), []).append((k, v))
     detailed = []
     depth = 0
     while len(detailed) < min(detail_budget, len(bad_files)):
@@ -567,6 +729,13 @@ def correspond(ctx, proof_ok=True):
         return cc.show('call_verdicts %s' % file_case(files[k], outs[k], up), tag='detail%d' % k)
     with ThreadPoolExecutor(max_workers=C.NPROC) as ex:
         texts = list(ex.map(detail, detailed))
+    # is a failure of a file that was loaded after other files due to that history?  re-run it alone in a fresh process
+    with_hist = [k for k, _ in detailed if pred[k]]
+    alone = {}
+    if with_hist:
+        sub = [dict(files[k]) for k in with_hist]
+        souts, _ = build_and_run(ctx, sub, [[j] for j in range(len(sub))], tag='alone')
+        alone = dict(zip(with_hist, souts))
     for (k, v), txt in zip(detailed, texts):
         fi, out = files[k], outs[k]
         vs = C.parse_nat_list(txt)
@@ -575,8 +744,21 @@ def correspond(ctx, proof_ok=True):
         base = {'file_text': fi['text'], 'file_style': fi['style'], 'file_kind': fi['kind'] + (' (' + fi['note'] + ')' if fi['note'] else ''),
                 'rows_read': out['rows'], 'aliases_read': out['aliases'], 'load': out['load'], 'load_model_up': up,
                 'dict_keys_after_load': out.get('keys')}
+        history = [{'file_text': files[i]['text'], 'calls': [c for _, c in files[i]['calls']]} for i in pred[k]]
+
+        def hist_mark(alone_result, result):
+            """-> (signature suffix, extra replay fields) for an answer of a file that had predecessors"""
+            if not pred[k] or k not in alone:
+                return '', {}
+            if outcome_key(alone_result) == outcome_key(result):
+                return '', {'standalone_result': alone_result, 'note_history': 'same answer when the file is loaded alone in a fresh process'}
+            return ':history-dependent', {'standalone_result': alone_result, 'history': history,
+                                          'note_history': 'the answer depends on the maskbits files loaded before in the same process '
+                                                          '(alone in a fresh process the answer is standalone_result); `history` lists them with the calls made'}
         if vs[0] != 0:
-            sig = 'C07:load:file=%s:impl=%s:%s' % (fi['style'], outcome(out['load']), 'property' if vs[0] & 2 else 'model')
+            mark, extra = hist_mark(alone[k]['load'] if k in alone else None, out['load'])
+            sig = 'C07:load:file=%s:impl=%s:%s%s' % (fi['style'], outcome(out['load']), 'property' if vs[0] & 2 else 'model', mark)
+            base = dict(base, **extra)
             rep = dict(base, kind='failing-input' if vs[0] & 2 else 'broken-correspondence', verdict=vs[0], call=None,
                        item='C07.Model.load', meaning='set_maskbits on a well-formed file must return a dictionary' if vs[0] & 2 else
                        'model of set_maskbits and the code disagree on whether the load succeeds')
@@ -586,10 +768,14 @@ def correspond(ctx, proof_ok=True):
                 continue
             tag, c = fi['calls'][j]
             r = out['results'][j]
-            sig = 'C07:%s:file=%s:impl=%s:%s' % (c['k'], fi['style'], outcome(r), 'property' if cv & 2 else 'model')
+            ar = None
+            if k in alone and alone[k]['load'].get('ok') and j < len(alone[k]['results']):
+                ar = alone[k]['results'][j]
+            mark, extra = hist_mark(ar, r)
+            sig = 'C07:%s:file=%s:impl=%s:%s%s' % (c['k'], fi['style'], outcome(r), 'property' if cv & 2 else 'model', mark)
             if sig in findings and findings[sig][0] <= len(out['rows']):
                 continue
-            rep = dict(base, kind='failing-input' if cv & 2 else 'broken-correspondence', call=c, call_tag=tag, impl_result=r, verdict=cv,
+            rep = dict(dict(base, **extra), kind='failing-input' if cv & 2 else 'broken-correspondence', call=c, call_tag=tag, impl_result=r, verdict=cv,
                        item='C07.Model.model_call', coq_call=call_term(c),
                        meaning='verdict bit 2: the answer of the real code contradicts the specification S (spec_call); bit 1: the model M differs from the code')
             findings[sig] = (len(out['rows']), rep,
@@ -640,6 +826,8 @@ def correspond(ctx, proof_ok=True):
                 'through two of them) on a generated maskbits file, compared inside Coq (vm_compute) with the model M and, for '
                 'well-formed files, with the specification S; distinct = distinct (file, call) terms',
         'files': len(usable),
+        'chains_by_length': {str(n): sum(1 for ch in chains if len(ch) == n) for n in (1, 2, 3)},
+        'files_loaded_after_another_edition': sum(1 for k in usable if pred[k]),
         'files_by_style_kind': {'%s/%s' % (s, kd): sum(1 for k in usable if files[k]['style'] == s and files[k]['kind'] == kd)
                                 for s in ('upper', 'mixed') for kd in ['wf'] + DEFECTS},
         'groups_per_file': {str(n): sum(1 for k in usable if len(files[k]['gnames']) == n) for n in range(1, 7)},
@@ -662,17 +850,32 @@ def replay(ctx, rep):
     if not text:
         print('replay file has no maskbits file (kind=%s, item=%s)' % (rep.get('kind'), rep.get('item')))
         return 2
-    path = os.path.join(ctx.work, 'replay.par')
-    with open(path, 'w') as f:
-        f.write(text)
     calls = [rep['call']] if rep.get('call') else []
-    out = C.run_impl('c07_impl.py', {'files': [{'path': path, 'calls': calls}]})
-    fo = out['files'][0]
+
+    def run(seq):
+        fl = []
+        for n, (t, cs) in enumerate(seq):
+            path = os.path.join(ctx.work, 'replay_%d.par' % n)
+            with open(path, 'w') as f:
+                f.write(t)
+            fl.append({'path': path, 'calls': cs})
+        return C.run_impl('c07_impl.py', {'files': fl})['files'][-1]
+    hist = [(h['file_text'], h['calls']) for h in rep.get('history', [])]
     print('maskbits file:\n' + text)
-    print('set_maskbits :', fo['load'], ' dictionary keys:', fo.get('keys'))
+    if hist:
+        print('loaded in the same process after %d other file(s) (see `history` in the replay file), calls made under each' % len(hist))
+        fo = run(hist + [(text, calls)])
+        print('set_maskbits :', fo['load'], ' dictionary keys:', fo.get('keys'))
+        if calls:
+            print('call         :', calls[0])
+            print('impl now, after the history :', fo['results'][0] if fo['results'] else None)
+    fo = run([(text, calls)])
+    if not hist:
+        print('set_maskbits :', fo['load'], ' dictionary keys:', fo.get('keys'))
     if calls:
-        print('call         :', calls[0])
-        print('impl now     :', fo['results'][0] if fo['results'] else None)
-        print('impl before  :', rep.get('impl_result'))
+        if not hist:
+            print('call         :', calls[0])
+        print('impl now, file loaded alone  :', fo['results'][0] if fo['results'] else None)
+        print('impl at the time of the finding:', rep.get('impl_result'))
         print('model / spec / well-formed file (Coq, at the time of the finding):', rep.get('model_spec_wf'))
     return 0
